@@ -38,6 +38,9 @@ def _child(world_name, seed, params, replay, wfd, want_tapes):
     try:
         faulthandler.enable()
         faulthandler.dump_traceback_later(RUN_WALL_CAP - 5, exit=False)
+        # cpppo's half-parsed generators complain when they are garbage collected after a fault
+        # ("Exception ignored in: <generator ...>"); that is stderr noise, not an outcome
+        sys.unraisablehook = lambda *a: None
         tapes = Tapes(seed, replay)
         random.seed(mix(seed, 'sut'))
         fn = REGISTRY[world_name]
@@ -107,17 +110,24 @@ def fork_run(world_name, seed, params=None, replay=None, want_tapes=False, wall_
 def _worker(k, nworkers, spec, out_path):
     out = []
     t0 = time.time()
-    count = spec['count']
+    jobs = spec.get('jobs')
+    count = len(jobs) if jobs is not None else spec['count']
     budget = spec.get('wall_budget')
     i = k
     while i < count:
         if budget and time.time() - t0 > budget:
             break
-        seed = mix(spec['seed'], spec['prop'], spec['world'], i)
-        params = dict(spec['params'])
+        if jobs is not None:
+            seed, jp = jobs[i]
+            params = dict(spec['params'])
+            params.update(jp)
+        else:
+            seed = mix(spec['seed'], spec['prop'], spec['world'], i)
+            params = dict(spec['params'])
         params['_index'] = i
         res = fork_run(spec['world'], seed, params)
         res['index'] = i
+        res['_jobparams'] = params if jobs is not None else None
         out.append(res)
         i += nworkers
     with open(out_path, 'w') as f:
@@ -125,11 +135,14 @@ def _worker(k, nworkers, spec, out_path):
     os._exit(0)
 
 
-def run_batch(prop, world_name, count, params=None, seed=0, workers=None, wall_budget=None):
-    """Run `count` seeds of a world across worker processes.  Returns list of result dicts."""
+def run_batch(prop, world_name, count, params=None, seed=0, workers=None, wall_budget=None, jobs=None):
+    """Run `count` seeds of a world (or the explicit (seed, params) `jobs`) across worker
+    processes.  Returns list of result dicts."""
+    if jobs is not None:
+        count = len(jobs)
     workers = min(workers or WORKERS, max(1, count))
     spec = dict(prop=prop, world=world_name, count=count, params=params or {}, seed=seed,
-                wall_budget=wall_budget)
+                wall_budget=wall_budget, jobs=jobs)
     tmpd = tempfile.mkdtemp(prefix='verif-batch-', dir='/dev/shm' if os.path.isdir('/dev/shm') else None)
     pids = []
     try:
